@@ -26,6 +26,7 @@ def run_low(case, horizon_ms=None):
     n = case['n']
     horizon = (horizon_ms or (12_000 + n * 400)) * 1_000_000
     out = {'sets': [], 'raised': [], 'restarts': 0, 'closes': 0, 'kills': 0}
+    fired = set()
     addrs = {p['name']: harness.addr_of(i, 0, case.get('ipc', False)) for i, p in enumerate(case['pubs'])}
 
     def pub_main(p, inc, start_idx):
@@ -47,9 +48,9 @@ def run_low(case, horizon_ms=None):
                     while snd.send(msgs, state, timeout=100) is None and world.now < horizon:
                         pass
                     idx += 1
-                    ev = next((e for e in p.get('events') or [] if e['after'] == k and not e.get('done')), None)
+                    j, ev = next(((j, e) for j, e in enumerate(p.get('events') or []) if e['after'] == k and (name, j) not in fired), (None, None))
                     if ev is not None:
-                        ev['done'] = True
+                        fired.add((name, j))      # the case value itself is never modified: a replay must see the same thing
                         nxt = idx if p['ids'] == 'forward' else 0      # a forwarder goes on with the upstream ids, a source starts counting again
                         if ev['how'] == 'close':
                             out['closes'] += 1
